@@ -240,6 +240,28 @@ def run_impl(harness, cases, mode="jit", nproc=None, stall_s=90, fn="impl"):
 
 
 # ----------------------------------------------------------------------------------------------------------------
+# anchor-function fingerprints (advisory: they never gate a verdict, they only deepen the correspondence run)
+# ----------------------------------------------------------------------------------------------------------------
+
+def changed_functions(prop):
+    """anchor functions of `prop` whose normalised AST differs from the recorded fingerprint (or that disappeared)"""
+    f = VERIF / "checks" / "fingerprints.json"
+    if not f.exists():
+        return []
+    try:
+        rec = json.load(open(f))
+        if rec.get("python") != list(sys.version_info[:2]):
+            return []
+        sys.path.insert(0, str(VERIF / "tools"))
+        import gen_fingerprints
+        cur = gen_fingerprints.current(REPO, rec.get("files", []))
+        return sorted(k for k in rec["by_property"].get(prop, []) if cur.get(k) != rec["functions"].get(k))
+    except Exception as e:  # noqa  (advisory only)
+        log("fingerprints unavailable:", e)
+        return []
+
+
+# ----------------------------------------------------------------------------------------------------------------
 # known findings
 # ----------------------------------------------------------------------------------------------------------------
 
